@@ -108,5 +108,5 @@ KANI = {
 PROP_UNITS = {
     'C17': {'kani': ['int_buffer', 'int_repr']},
     'C05': {'kani': ['int_repr', 'int_cmp']},
-    'C15': {'kani': ['int_repr']},
+    'C15': {'kani': ['int_repr', 'int_forms']},
 }
